@@ -75,32 +75,23 @@ def plan(ctx):
   return jobs
 
 
+def _run_all(jobs):
+  from pv import proc
+  return list(proc.imap_unordered(run_source, jobs, procs=min(12, max(1, len(jobs)))))
+
+
 def start(ctx):
   """Starts the generator runs in a background pool (they take ~40 s; the rule part runs meanwhile)."""
   jobs = plan(ctx)
   if ctx.only_sid:
     jobs = [j for j in jobs if 'gen-%s-%s-n%d-s%d' % (j[1], j[0].replace('/', '_'), j[4], j[5]) == ctx.only_sid]
-  import threading
   from pv import proc
-  box = {}
-  def bg():
-    try:
-      box['res'] = list(proc.imap_unordered(run_source, jobs, procs=min(12, max(1, len(jobs)))))
-    except BaseException as e:  # pylint: disable=broad-except
-      box['err'] = e
-  th = threading.Thread(target=bg, daemon=True)
-  th.start()
-  return th, box
+  return proc.start_background(_run_all, (jobs,))
 
 
 def finish(ctx, handle):
-  th, box = handle
-  th.join(7200)
-  if th.is_alive():
-    raise tlc.MachineryError('generator runs exceeded 7200 s')
-  if 'err' in box:
-    raise box['err']
-  recs = box['res']
+  from pv import proc
+  recs = proc.finish_background(handle, 7200)
   if not recs:
     return
   ctx.replayed += len(recs)
